@@ -96,6 +96,11 @@ def resample(moving, transform=None, reference=None,
     data = moving.get_fdata()
     if dtype is None:
         dtype = data.dtype
+    if data.dtype.kind in 'biu':
+        # interpolate in floating point and convert the result to `dtype`:
+        # ndimage pads integer input with the fill value cast to the input's
+        # dtype ('grid-constant', order > 1), so cval=-4 on uint8 data gave 252
+        data = data.astype(np.float64)
 
     # Assume identity transform by default
     if transform is None:
